@@ -63,6 +63,10 @@ int main(int argc, char** argv) {
         gdeck::Opts o;
         o.actions = false;            // actions are added here, structured
         o.geoModifiers = false;
+        // The statement exempts keywords whose meaning is defined per report step: a well-wide WPIMULT of the deck is applied when
+        // its step closes, i.e. before an action applied at that step but after the same keywords when they are inlined (seen as a
+        // WellConnections rebuilt with the head a WELSPECS body had just changed).  No WPIMULT in the C04 schedules.
+        o.wpimult = false;
         o.minSteps = 3; o.maxSteps = 7;
         gdeck::Generator gen(rng, o);
         gdeck::Model m = gen.generate();
@@ -118,8 +122,9 @@ int main(int argc, char** argv) {
             const auto& AM = m.actions[ap.actionIdx];
             // matching wells: random subset of the wells existing at that step
             auto names = sched.wellNames(ap.step);
+            // `names` is the schedule's well order (order of definition): the order in which the library visits the wells of '?'
+            // (WellMatcher::sort) and therefore the order of the inlined records.  Result::wells() takes them in any order.
             for (auto& w : names) if (rng.chance(0.5)) ap.wells.push_back(w);
-            std::sort(ap.wells.begin(), ap.wells.end());
             bool needsWells = false;
             for (auto& b : AM.body) needsWells = needsWells || b.perWell;
             if (needsWells && ap.wells.empty()) { if (names.empty()) { rep.count("no_wells_at_step"); return; } ap.wells.push_back(names[rng.below(names.size())]); }
@@ -141,7 +146,9 @@ int main(int argc, char** argv) {
             try {
                 if (!sched[ap.step].actions().has(AM.name)) { Opm::Verif::scheduleKeywordHook() = nullptr; rep.count("action_not_present_at_step"); return; }
                 const auto& action = sched[ap.step].actions()[AM.name];
-                auto res = Action::Result{true}.wells(ap.wells);
+                std::vector<std::string> shuffled = ap.wells;
+                rng.shuffle(shuffled);
+                auto res = Action::Result{true}.wells(shuffled);
                 sched.applyAction(ap.step, action, res.matches(), std::unordered_map<std::string, double>{});
             } catch (const std::exception& e) {
                 Opm::Verif::scheduleKeywordHook() = nullptr;
